@@ -1,19 +1,26 @@
+import os
+LOOPS = {r'nameOf': 26, r'RK3Sym|R3Sym|^h_|makeOffer': 5, r'SaslHtMechanism10fromString': 9,
+         r'QListI7QStringE13node_destruct': 8, r'QListI7QStringE9node_copy': 8}
 def I(name, entry, **kw):
-    d = dict(name=name, entry=entry, unwind=5, timeout_s=120, mem_gb=6, tiers=('quick', 'thorough'), model_loop_bound=26,
-             bound='offers <= 3 names, disabled <= 2 names'); d.update(kw); return d
-def G(name, instances, **cxx):
+    d = dict(name=name, entry=entry, unwind=4, timeout_s=300, mem_gb=6, tiers=('quick', 'thorough'), model_loop_bound=26, bound=''); d.update(kw)
+    if os.environ.get('C05_DEBUG'): d['cbmc_flags'] = list(d.get('cbmc_flags', [])) + ['--verbosity', '9']; d['timeout_s'] = int(os.environ['C05_DEBUG'])
+    return d
+def G(name, instances, models, **cxx):
     defs = {'VP_NOFF': 3, 'VP_NDIS': 2, '_GLIBCXX_RANGES': 1}; defs.update(cxx)
     return dict(name=name, harness='h.cpp', ranges_shim=True,
                 tus=['src/base/QXmppSasl.cpp', 'src/client/QXmppConfiguration.cpp'],
-                models=['c05_str.c', 'qt_list.c', 'models.c'], cxxdefs=defs,
-                loop_bounds={r'nameOf': 26, r'SaslHtMechanism10fromString': 9, r'QListI7QStringE13node_destruct': 8, r'QListI7QStringE9node_copy': 8},
-                instances=instances)
-V9 = dict(cbmc_flags=['--verbosity', '9'], timeout_s=40)
+                models=models, cxxdefs=defs, loop_bounds=LOOPS, instances=instances)
+BASE = ['c05_str.c', 'c05_list.c', 'models.c']
+def choose(o, d, **kw):
+    return I('choose_o%d_d%d' % (o, d), 'h_choose', cdefs={'C05_NOFF': o, 'C05_NDIS': d}, unwind=o + 1,
+             bound='offer list of exactly %d names, disabled list of exactly %d names, each any row of the 52-name table' % (o, d), **kw)
 SPEC = dict(
     property='C05',
     groups=[
-        G('choose', [I('choose', 'h_choose'), I('default_plain', 'h_default_plain')]),
-        G('dbg', [I('dbg%d' % i, 'h_dbg%d' % i, **V9) for i in (6, 7, 8, 9)], VP_DEBUG_ENTRIES=1),
+        G('parse', [I('parse_table', 'h_parse_table', unwind=2, bound='every row of the 52-name table')], BASE),
+        G('choose_cut', [choose(o, d) for o in (0, 1, 2, 3) for d in (0, 1, 2)]
+                        + [I('default_plain_o%d' % o, 'h_default_plain', cdefs={'C05_NOFF': o, 'C05_NDIS': 0}, unwind=o + 1) for o in (1, 2, 3)],
+          BASE + ['c05_cut.c']),
     ],
     bounds=[], assumptions=[], outside=[],
 )
